@@ -4,6 +4,7 @@ import SJ.Props.C19Nested
 import SJ.Props.C19Map
 import SJ.Props.C19Value
 import SJ.Props.C19Struct
+import SJ.Props.C19Seq
 #print axioms SJ.Props.C19.runPrefix_feed
 #print axioms SJ.Props.C19.c19_captured_reparses
 #print axioms SJ.Props.C19.skipWs_prefix
@@ -30,3 +31,4 @@ import SJ.Props.C19Struct
 #print axioms SJ.Props.C19.c19_from_value
 #print axioms SJ.Props.C19.c19_field_capture
 #print axioms SJ.Props.C19.c19_field_text
+#print axioms SJ.Props.C19Seq.c19_seq_capture
